@@ -57,11 +57,17 @@ def random_ints(lower: int = -sys.maxsize, upper: int = sys.maxsize) -> Iterator
     # yield upper
     # TODO: maybe first generate_true some smaller ints
 
+    # sample around the admissible value closest to zero, so that a bound beyond +-100 still leaves a window
+    origin = min(max(0, lower), upper)
+
     def between(limit: int) -> Iterator[int]:
-        low = max(-limit, lower)
-        high = min(limit, upper)
+        low = max(origin - limit, lower)
+        high = min(origin + limit, upper)
         if high >= low:
             yield from (random.randint(low, high) for _ in range(0, limit))
+
+    if lower > upper:
+        return
 
     while True:
         yield from between(1)
